@@ -68,6 +68,9 @@ def stream_line(rng, s, fam, avg=1):
     d = dict(frames=n, w=w, h=h, type=ty, avg=avg, delay_ms=rng.choice([0, 0, 0, 2, 10]), trigger=0,
              camfail=-1, stofail=-1, shapefail=-1, slow=rng.choice([0, 0, 1, 2, 4]), pace=rng.choice([0, 0, 1, 3]),
              zero=rng.choice([-1, -1, -1, -1, rng.randint(0, max(0, n - 1))]),   # a frame call that comes back empty once
+             # the shape the camera reports with a frame may differ from get_shape (same bytes); not for the averaging filter,
+             # which refuses to mix shapes within a window
+             vary=1 if (avg <= 1 and rng.random() < 0.2) else 0,
              camstop=rng.choice([0, 0, 0, 2, 6, 15, 40]))
     return d
 
@@ -386,7 +389,7 @@ def gen_lifecycle(rng, out, i):
     return "\n".join(lines) + "\n"
 
 
-FAMILIES = {"C08": ["lifecycle"], "C04": ["complete", "fullring"], "C05": ["complete", "monitor", "avg"], "C06": ["monitor"], "C07": ["abort"], "C09": ["fault"], "C10": ["avg"]}
+FAMILIES = {"C08": ["lifecycle"], "C04": ["complete", "fullring"], "C05": ["complete", "monitor", "avg"], "C06": ["monitor"], "C07": ["abort", "lifecycle"], "C09": ["fault"], "C10": ["avg"]}
 NRUNS = {"quick": 600, "thorough": 6000}
 
 
@@ -421,7 +424,9 @@ def context_of(lines, first, line):
 
 
 def judge(chk, prop, trace, idx, cfgs, bdir, kind):
-    v = validate(trace, bdir, spec=OBS.get(prop, "PipelineObs"))
+    # (client programs of the lifecycle family are judged by LifecycleObs whatever the property: their device choices cross streams)
+    spec = "LifecycleObs" if kind == "lifecycle" else OBS.get(prop, "PipelineObs")
+    v = validate(trace, bdir, spec=spec)
     lines = open(trace).read().splitlines()
     per = {}
     for rule, line in v["bad"]:
@@ -441,7 +446,7 @@ def judge(chk, prop, trace, idx, cfgs, bdir, kind):
             continue
         cfgtxt = open(cfgs[e]).read()
         chk.violation(sig, "%s refused %s (%s run)\nconfig:\n%s" % (rule, lines[line - 1][:400], kind, cfgtxt[:900]),
-                      replay_obj={"kind": "pipe_vs", "config": cfgtxt, "rule": rule})
+                      replay_obj={"kind": "pipe_vs", "config": cfgtxt, "rule": rule, "obs": spec})
     if v["nbad"] > len(v["bad"]):
         chk.notes.append("%d refusals in total, first %d examined" % (v["nbad"], len(v["bad"])))
     chk.cov.setdefault("refusal_signatures", {}).update(per)
@@ -457,7 +462,7 @@ def replay_script(prop, path):
     txt = "\n".join(l for l in obj["config"].splitlines() if not l.startswith("out ")) + "\nout %s\n" % out
     open(cfgp, "w").write(txt)
     run([exe, cfgp], timeout=300)
-    v = validate(out, bdir, spec=OBS.get(prop, "PipelineObs"))
+    v = validate(out, bdir, spec=obj.get("obs") or OBS.get(prop, "PipelineObs"))
     for l in open(out):
         if not l.startswith('{"e":"Sched"'):
             log("  " + l.rstrip()[:260])
@@ -884,7 +889,7 @@ def main(prop, tier):
     n = NRUNS[tier]
     total_runs = total_events = 0
     fams = FAMILIES[prop]
-    small = {"fullring": n // 5}            # directed families get a fixed small share, the others split the rest evenly
+    small = {"fullring": n // 5, "lifecycle": n // 4 if prop != "C08" else n}   # directed / borrowed families get a fixed share
     rest = (n - sum(small[f] for f in fams if f in small)) // max(1, len([f for f in fams if f not in small]))
     for fam in fams:
         stats, allp = run_family(chk, prop, exe, bdir, fam, small.get(fam, rest), rng, fam)
